@@ -138,7 +138,8 @@ func (e *SeqArrowExpr) Eval(ctx context.Context, local Scope) (_ Value, err erro
 					"%s lhs must be an indexed type, not %s", e.op, ValueTypeAsString(value)), e, local)
 			}
 			at, has := t.Get("@")
-			if !has {
+			if !has || t.Count() != 2 {
+				// an indexed type holds tuples of @ and exactly one other attribute
 				return nil, WrapContextErr(errors.Errorf(
 					"%s lhs must be an indexed type, not %s", e.op, ValueTypeAsString(value)), e, local)
 			}
